@@ -17,7 +17,7 @@ def fieldsOK (n : Ast) : Bool :=
   | none => true
 
 /-- classes whose instances have no child nodes (all their fields are strings / ints / None) -/
-def leafKinds : List String := ["Name", "alias", "Global"]
+def leafKinds : List String := ["Name", "alias", "Global", "_AliasEnd"]
 
 def Ast.isScalar : Ast → Bool
   | .node .. => false
@@ -51,7 +51,8 @@ def kindsOK (n : Ast) : Bool :=
   (if n.kind == "Try" || n.kind == "TryExcept" then okAnd (getNodeList n "handlers") (allKind "ExceptHandler") else true) &&
   (if n.kind == "ListComp" || n.kind == "GeneratorExp" || n.kind == "DictComp" || n.kind == "SetComp" then
     okAnd (getNodeList n "generators") (allKind "comprehension") else true) &&
-  (if n.kind == "Import" || n.kind == "ImportFrom" then okAnd (getNodeList n "names") (allKind "alias") else true)
+  (if n.kind == "Import" || n.kind == "ImportFrom" then okAnd (getNodeList n "names") (allKind "alias") else true) &&
+  (if n.kind == "Import" || n.kind == "ImportFrom" then okAnd (aliasEnds n) (allKind "_AliasEnd") else true)
 
 /-- every attribute / position / target the node's visit method reads is there, with the right kind of
     value (`compile` = the reading half of the visit method), and the node has the fields the grammar gives
